@@ -279,6 +279,7 @@ class Session:
     def step(self, name, args):
         """perform the call named by a spec label; returns (outcome class, exception)"""
         self.ret = None
+        self.alt = None
         exc = None
         try:
             getattr(self, 'do_' + name)(*args)
@@ -376,10 +377,28 @@ class Session:
         return now + f['k'] * rb + self.real_b(f['b'])
 
     def do_TR_Call(self, i):
+        self.alt = None
         if i == NONINT:
-            i = [2.0, '1', None, np.int64(1)][self.n % 4]
+            i = [2.0, '1', None][self.n % 3]
             self.n += 1
+        else:
+            i = self.int_form(i, ('TR_Call', [NONINT]))
         self.darr.truncate_array(self.a, i)
+
+    def int_form(self, i, alt):
+        """an integer argument as a Python int or as a NumPy integer of some width.  Whether NumPy integers are
+        accepted is the library's choice: refusing them like any non-integer (`alt`) or treating them as the int"""
+        if getattr(self, 'plain_ints', False):
+            return i
+        self.nint = getattr(self, 'nint', self.cfg.rowbytes) + 1
+        t = [None, None, None, np.uint8, None, None, np.int8, None, None, np.int64, None, np.int16][self.nint % 12]
+        if t is None:
+            return i
+        info = np.iinfo(t)
+        if not (info.min <= i <= info.max):
+            return i
+        self.alt = alt
+        return t(i)
 
     def do_SetItem(self, i, rid):
         v = self.cfg.row(rid)
